@@ -10,9 +10,9 @@ import (
 // RaceBuild reports whether the happens-before monitor (O3) is active.
 const RaceBuild = true
 
-func raceDisable()                   { runtime.RaceDisable() }
-func raceEnable()                    { runtime.RaceEnable() }
-func raceAcquire(p unsafe.Pointer)   { runtime.RaceAcquire(p) }
-func raceRelease(p unsafe.Pointer)   { runtime.RaceRelease(p) }
-func raceRelMerge(p unsafe.Pointer)  { runtime.RaceReleaseMerge(p) }
-func RaceErrors() int                { return runtime.RaceErrors() }
+func raceDisable()                  { runtime.RaceDisable() }
+func raceEnable()                   { runtime.RaceEnable() }
+func raceAcquire(p unsafe.Pointer)  { runtime.RaceAcquire(p) }
+func raceRelease(p unsafe.Pointer)  { runtime.RaceRelease(p) }
+func raceRelMerge(p unsafe.Pointer) { runtime.RaceReleaseMerge(p) }
+func RaceErrors() int               { return runtime.RaceErrors() }
